@@ -384,7 +384,7 @@ pub fn check_history(env: Env, lines: &[&str]) -> Option<(String, String)> {
 // ---------------------------------------------------------------------------
 // alphabets
 
-const TIMES: [&str; 5] = ["0", "0.00000000000000001", "10", "20", "-5"];
+const TIMES: [&str; 6] = ["0", "0.00000000000000001", "10", "20", "-5", "-0"];
 
 fn kinds(tier: Tier, deep: bool) -> Vec<&'static str> {
     let mut k = vec![
